@@ -91,7 +91,7 @@ struct Machine {
 			VP_CHECK(n >= 0 && n < 100000, "fault/invalid_extents", "slot " << i << " after " << after << ": num_elements()=" << n);
 			long sz[D]; lib_sizes(A, sz);
 			m.ext.assign(sz, sz + D); m.v.clear();
-			auto const* p = A.data_elements();
+			auto const* p = raw_ptr(A.data_elements());
 			if(n > 0) { VP_CHECK(p != nullptr, "fault/null_data", "slot " << i << " has " << n << " elements but a null data pointer after " << after); }
 			if constexpr(Cfg::stateful) { if(n > 0) { auto it = obs().blocks.find(p); VP_CHECK(it != obs().blocks.end() && static_cast<long>(it->second.n) == n, "fault/extents_vs_block", "slot " << i << " after " << after << ": reports " << n << " elements over a block that is " << (it == obs().blocks.end() ? std::string("not outstanding") : std::to_string(it->second.n) + " elements")); } }
 			for(long j = 0; j < n; ++j) {
@@ -119,7 +119,7 @@ struct Machine {
 		if(m.n() == 0) { return; }
 		long sz[D]; lib_sizes(A, sz);
 		for(int k = 0; k < D; ++k) { VP_CHECK(sz[k] == m.ext[static_cast<std::size_t>(k)], "value/extents", "slot " << i << " after " << after << ": extent " << k << " is " << sz[k] << " model " << m.ext[static_cast<std::size_t>(k)]); }
-		auto const* p = A.data_elements();
+		auto const* p = raw_ptr(A.data_elements());
 		if constexpr(Cfg::stateful) {
 			auto it = obs().blocks.find(p);
 			VP_CHECK(it != obs().blocks.end(), "alloc/foreign_block", "slot " << i << " after " << after << ": storage is not an outstanding block of the observing allocator");
@@ -138,7 +138,7 @@ struct Machine {
 		for(int i = 0; i < NS; ++i) { check_slot(i, after); }
 		for(int i = 0; i < NS; ++i) { for(int j = 0; j < i; ++j) {
 			if(model[i].n() == 0 || model[j].n() == 0) { continue; }
-			auto const* p = slot[i]->data_elements(); auto const* q = slot[j]->data_elements();
+			auto const* p = raw_ptr(slot[i]->data_elements()); auto const* q = raw_ptr(slot[j]->data_elements());
 			VP_CHECK((p + model[i].n() <= q) || (q + model[j].n() <= p), "value/shared_storage", "slots " << j << " and " << i << " share storage after " << after);
 		} }
 		if(faulted && !tolerated_once) {
@@ -180,14 +180,14 @@ struct Machine {
 			std::vector<void const*> stray;
 			for(auto const* e : obs().alive) {
 				bool inside = false;
-				for(int i = 0; i < NS; ++i) { if(model[i].n() > 0) { auto const* p = slot[i]->data_elements(); if(e >= static_cast<void const*>(p) && e < static_cast<void const*>(p + model[i].n())) { inside = true; } } }
+				for(int i = 0; i < NS; ++i) { if(model[i].n() > 0) { auto const* p = raw_ptr(slot[i]->data_elements()); if(e >= static_cast<void const*>(p) && e < static_cast<void const*>(p + model[i].n())) { inside = true; } } }
 				if(!inside) { stray.push_back(e); }
 			}
 			for(auto const* e : stray) { obs().alive.erase(e); ctx.count("known_finding_rows_not_rolled_back_elements"); did = true; }
 		} }
 		for(auto it = obs().blocks.begin(); it != obs().blocks.end(); ++it) {
 			bool owned = false;
-			for(int i = 0; i < NS; ++i) { if(model[i].n() > 0 && static_cast<void const*>(slot[i]->data_elements()) == it->first) { owned = true; } }
+			for(int i = 0; i < NS; ++i) { if(model[i].n() > 0 && static_cast<void const*>(raw_ptr(slot[i]->data_elements())) == it->first) { owned = true; } }
 			if(owned) { continue; }
 			auto const* p = static_cast<T const*>(it->first);
 			for(std::size_t j = 0; j < it->second.n; ++j) { if constexpr(tracked) { if(obs().alive.count(p + j) != 0) { return did; } } }
@@ -220,10 +220,10 @@ struct Machine {
 	}
 	template<class U> multi::array<U, D> realise(MV const& m) const {
 		multi::array<U, D> R(mk_ext<D>(m.ext));
-		if(m.n() > 0) { auto* p = R.data_elements(); for(long j = 0; j < m.n(); ++j) { p[j] = mk<U>(m.v[static_cast<std::size_t>(j)]); } }
+		if(m.n() > 0) { auto* p = raw_ptr(R.data_elements()); for(long j = 0; j < m.n(); ++j) { p[j] = mk<U>(m.v[static_cast<std::size_t>(j)]); } }
 		return R;
 	}
-	void set_contents(Arr& A, MV const& m) { if(m.n() > 0) { auto* p = A.data_elements(); for(long j = 0; j < m.n(); ++j) { p[j] = mk<T>(m.v[static_cast<std::size_t>(j)]); } } }
+	void set_contents(Arr& A, MV const& m) { if(m.n() > 0) { auto* p = raw_ptr(A.data_elements()); for(long j = 0; j < m.n(); ++j) { p[j] = mk<T>(m.v[static_cast<std::size_t>(j)]); } } }
 	void print_ext(std::vector<long> const& e) { ctx.desc << '('; for(std::size_t k = 0; k < e.size(); ++k) { if(k) { ctx.desc << 'x'; } ctx.desc << e[k]; } ctx.desc << ')'; }
 	void set_empty(int a) { model[a].ext.assign(static_cast<std::size_t>(D), 0); model[a].v.clear(); }
 
@@ -346,7 +346,7 @@ struct Machine {
 			std::vector<multi::array<T, D - 1>> src; src.reserve(static_cast<std::size_t>(m.ext[0]));
 			for(long i = 0; i < m.ext[0]; ++i) {
 				multi::array<T, D - 1> S(mk_ext<D - 1>(sub.ext));
-				if(sn > 0) { auto* p = S.data_elements(); for(long j = 0; j < sn; ++j) { p[j] = mk<T>(m.v[static_cast<std::size_t>(i*sn + j)]); } }
+				if(sn > 0) { auto* p = raw_ptr(S.data_elements()); for(long j = 0; j < sn; ++j) { p[j] = mk<T>(m.v[static_cast<std::size_t>(i*sn + j)]); } }
 				src.push_back(std::move(S));
 			}
 			f(src);
@@ -380,7 +380,7 @@ struct Machine {
 				else {
 					if constexpr(Cfg::stateful) {  // trivial elements must not be written by a sizing constructor: the allocator's paint is still there
 						long n = 1; for(auto q : e) { n *= q; }
-						auto const* p = slot[a]->data_elements();
+						auto const* p = raw_ptr(slot[a]->data_elements());
 						for(long j = 0; j < n; ++j) { VP_CHECK(val(p[j]) == kPaintInt, "trivial/written", "sizing constructor wrote element " << j << " of a trivially default-constructible type"); }
 					}
 					model[a] = make_model(e, in.op(r, 5), 1); set_contents(*slot[a], model[a]);  // trivial elements are unspecified: written by the harness
@@ -439,7 +439,7 @@ struct Machine {
 			}
 			case O_MOVE_CTOR: case O_MOVE_CTOR_ALLOC: {
 				ctx.desc << " <- " << b;
-				auto const* before = slot[b]->data_elements(); long nb = model[b].n();
+				auto const* before = raw_ptr(slot[b]->data_elements()); long nb = model[b].n();
 				long ops0 = obs().copies_and_moves() + obs().ctor_default + obs().ctor_value;
 				int id = alloc_id[b];
 				if(op == O_MOVE_CTOR) { slot[a] = std::make_unique<Arr>(std::move(*slot[b])); }
@@ -454,7 +454,7 @@ struct Machine {
 				bool const may_steal = (op == O_MOVE_CTOR) || id == alloc_id[b] || (Cfg::flags & 8) != 0;
 				if(may_steal) {
 					VP_CHECK(ops1 == ops0, "value/move_copies", "move construction performed " << (ops1 - ops0) << " element operations");
-					if(nb > 0) { VP_CHECK(slot[a]->data_elements() == before, "value/move_buffer", "move construction did not transfer the buffer"); }
+					if(nb > 0) { VP_CHECK(raw_ptr(slot[a]->data_elements()) == before, "value/move_buffer", "move construction did not transfer the buffer"); }
 				}
 				model[a] = model[b]; alloc_id[a] = id; set_empty(b); moved_from[b] = true;
 				break;
@@ -468,10 +468,10 @@ struct Machine {
 				break;
 			}
 			case O_SELF_ASSIGN: {
-				auto const* before = slot[a]->data_elements();
+				auto const* before = raw_ptr(slot[a]->data_elements());
 				auto& ref = *slot[a];
 				*slot[a] = ref;
-				VP_CHECK(slot[a]->data_elements() == before, "value/self_assign", "self-assignment reallocated");
+				VP_CHECK(raw_ptr(slot[a]->data_elements()) == before, "value/self_assign", "self-assignment reallocated");
 				break;
 			}
 			case O_ASSIGN_ILIST: unknown[a] = true; alloc_flex[a] = true; from_ilist(a, true, x); unknown[a] = false; break;
@@ -480,7 +480,7 @@ struct Machine {
 				ctx.desc << " <- " << b;
 				bool const equal_allocs = !Cfg::stateful || alloc_id[a] == alloc_id[b] || (Cfg::flags & 8) != 0;
 				bool const pocma = Cfg::stateful && (Cfg::flags & 2) != 0;
-				auto const* before = slot[b]->data_elements(); long nb = model[b].n();
+				auto const* before = raw_ptr(slot[b]->data_elements()); long nb = model[b].n();
 				long ops0 = obs().copies_and_moves() + obs().ctor_default + obs().ctor_value;
 				if(moved_from[a]) { nt = true; }
 				unknown[a] = unknown[b] = true;  // after a failure both keep some valid, unspecified value
@@ -489,7 +489,7 @@ struct Machine {
 				long ops1 = obs().copies_and_moves() + obs().ctor_default + obs().ctor_value;
 				if(equal_allocs || pocma) {
 					VP_CHECK(ops1 == ops0, "value/move_copies", "move assignment performed " << (ops1 - ops0) << " element constructions/assignments");
-					if(nb > 0) { VP_CHECK(slot[a]->data_elements() == before, "value/move_buffer", "move assignment did not transfer the buffer"); }
+					if(nb > 0) { VP_CHECK(raw_ptr(slot[a]->data_elements()) == before, "value/move_buffer", "move assignment did not transfer the buffer"); }
 				}
 				if(pocma) { alloc_id[a] = alloc_id[b]; }
 				model[a] = model[b]; set_empty(b); moved_from[b] = true;
@@ -500,9 +500,9 @@ struct Machine {
 				bool const equal_allocs = !Cfg::stateful || alloc_id[a] == alloc_id[b] || (Cfg::flags & 8) != 0;
 				bool const pocs = Cfg::stateful && (Cfg::flags & 4) != 0;
 				if(!equal_allocs && !pocs) { ctx.count("excluded_swap_unequal_allocators_is_UB"); ctx.desc << " (excluded: UB for every standard container)"; break; }
-				auto const* pa = slot[a]->data_elements(); auto const* pb = slot[b]->data_elements();
+				auto const* pa = raw_ptr(slot[a]->data_elements()); auto const* pb = raw_ptr(slot[b]->data_elements());
 				if((x & 1U) != 0) { slot[a]->swap(*slot[b]); } else { using std::swap; swap(*slot[a], *slot[b]); }
-				if(model[a].n() > 0 && model[b].n() > 0) { VP_CHECK(slot[a]->data_elements() == pb && slot[b]->data_elements() == pa, "value/swap_buffers", "swap did not exchange the buffers"); }
+				if(model[a].n() > 0 && model[b].n() > 0) { VP_CHECK(raw_ptr(slot[a]->data_elements()) == pb && raw_ptr(slot[b]->data_elements()) == pa, "value/swap_buffers", "swap did not exchange the buffers"); }
 				std::swap(model[a], model[b]); std::swap(moved_from[a], moved_from[b]);
 				if(pocs) { std::swap(alloc_id[a], alloc_id[b]); }
 				break;
@@ -512,7 +512,7 @@ struct Machine {
 				long k = static_cast<long>(x | (static_cast<unsigned>(in.op(r, 4)) << 8U)) % model[a].n();
 				int nv = in.op(r, 5) % 50;
 				ctx.desc << " [" << k << "]=" << nv;
-				if((in.op(r, 6) & 1U) != 0) { slot[a]->elements()[k] = mk<T>(nv); } else { slot[a]->data_elements()[k] = mk<T>(nv); }
+				if((in.op(r, 6) & 1U) != 0) { slot[a]->elements()[k] = mk<T>(nv); } else { raw_ptr(slot[a]->data_elements())[k] = mk<T>(nv); }
 				model[a].v[static_cast<std::size_t>(k)] = nv;
 				break;
 			}
@@ -541,17 +541,17 @@ struct Machine {
 				}
 				if(old.n() > 0 && n > 0 && common < old.n() && common < n && common > 0) { nt = true; }
 				bool const same = (old.n() == 0 && n == 0) || old.ext == e;
-				auto const* before = slot[a]->data_elements();
+				auto const* before = raw_ptr(slot[a]->data_elements());
 				unknown[a] = true;
 				if(op == O_REEXTENT) { slot[a]->reextent(mk_ext<D>(e)); }
 				else if(op == O_REEXTENT_VAL) { slot[a]->reextent(mk_ext<D>(e), mk<T>(fillv)); }
 				else { std::move(*slot[a]).reextent(mk_ext<D>(e)); }
 				unknown[a] = false;
-				if(same && n > 0) { VP_CHECK(slot[a]->data_elements() == before, "reextent/noop_moved_storage", "reextent to the current extents changed the storage"); }  // (storage identity is meaningless for zero elements)
+				if(same && n > 0) { VP_CHECK(raw_ptr(slot[a]->data_elements()) == before, "reextent/noop_moved_storage", "reextent to the current extents changed the storage"); }  // (storage identity is meaningless for zero elements)
 				if(n == 0) { m.ext.assign(static_cast<std::size_t>(D), 0); }
 				if(!with_val && std::is_trivially_default_constructible_v<T> && !same) {
 					// new elements of a trivially default-constructible type are unspecified: not read; (C08) they must not have been written either
-					auto* p = slot[a]->data_elements();
+					auto* p = raw_ptr(slot[a]->data_elements());
 					for(long j = 0; j < n; ++j) { if(fresh[static_cast<std::size_t>(j)] != 0) {
 						if constexpr(Cfg::stateful) { VP_CHECK(val(p[j]) == kPaintInt, "trivial/written", "reextent without a value wrote new element " << j << " of a trivially default-constructible type"); }
 						p[j] = mk<T>(m.v[static_cast<std::size_t>(j)] = (fillv + static_cast<int>(j)) % 50);
@@ -563,11 +563,11 @@ struct Machine {
 			}
 			case O_REEXTENT_SAME: {
 				if(model[a].n() == 0) { break; }
-				auto const* before = slot[a]->data_elements();
+				auto const* before = raw_ptr(slot[a]->data_elements());
 				auto it = slot[a]->elements().begin();
 				auto const* e0 = std::addressof(*it);
 				if((x & 1U) != 0) { slot[a]->reextent(mk_ext<D>(model[a].ext)); } else { slot[a]->reextent(mk_ext<D>(model[a].ext), mk<T>(7)); }
-				VP_CHECK(slot[a]->data_elements() == before && std::addressof(*it) == e0, "reextent/noop_moved_storage", "reextent to the current extents invalidated the storage or an iterator");
+				VP_CHECK(raw_ptr(slot[a]->data_elements()) == before && std::addressof(*it) == e0, "reextent/noop_moved_storage", "reextent to the current extents invalidated the storage or an iterator");
 				break;
 			}
 			case O_RESHAPE: {
@@ -575,9 +575,9 @@ struct Machine {
 				std::vector<long> e = model[a].ext;
 				if(D >= 2) { switch(x % 3U) { case 0: std::rotate(e.begin(), e.begin() + 1, e.end()); break; case 1: e[1] *= e[0]; e[0] = 1; break; default: e[0] *= e[static_cast<std::size_t>(D - 1)]; e[static_cast<std::size_t>(D - 1)] = 1; break; } }
 				print_ext(e);
-				auto const* before = slot[a]->data_elements();
+				auto const* before = raw_ptr(slot[a]->data_elements());
 				slot[a]->reshape(mk_ext<D>(e));
-				VP_CHECK(slot[a]->data_elements() == before, "reshape/moved_storage", "reshape changed the storage");
+				VP_CHECK(raw_ptr(slot[a]->data_elements()) == before, "reshape/moved_storage", "reshape changed the storage");
 				model[a].ext = e;
 				break;
 			}
